@@ -8,6 +8,7 @@ import Driver.OpsFs
 import Driver.OpsRawXml
 import Driver.OpsUpload
 import Driver.OpsPropfind
+import Driver.OpsCardWire
 namespace Driver
 
 def dispatch (op : String) (args : List SExp) : Option OpResult :=
@@ -50,6 +51,10 @@ def dispatch (op : String) (args : List SExp) : Option OpResult :=
   | "conc" => opConc args
   | "pf.resp" => opPfResp args
   | "pf.scope" => opPfScope args
+  | "card.enc" => opCardEnc args
+  | "card.dec" => opCardDec args
+  | "card.encmg" => opCardEncMg args
+  | "card.decmg" => opCardDecMg args
   | "card.filter" => opCardFilter args
   | _ => none
 
